@@ -501,13 +501,16 @@ pub fn run_c03(o: &Opts) {
       if nodes.is_empty() {
         continue;
       }
-      for _ in 0..(if o.thorough { 120 } else { 40 }) {
-        let t = rng.pick(&nodes).clone();
+      let with_comments: Vec<N> = nodes.iter().filter(|n| n.children().any(|c| c.kind().contains("comment"))).cloned().collect();
+      for k in 0..(if o.thorough { 120 } else { 40 }) {
+        let t = if k % 3 == 0 && !with_comments.is_empty() { rng.pick(&with_comments).clone() } else { rng.pick(&nodes).clone() };
         if subtree_size(&t) > 60 {
           continue;
         }
         let named: Vec<N> = t.children().filter(|c| c.is_named()).collect();
-        let c = rng.pick(&named).clone();
+        // a comment among the children is the most telling child to drop: only relaxed / signature may skip it
+        let comments: Vec<N> = named.iter().filter(|c| c.kind().contains("comment")).cloned().collect();
+        let c = if !comments.is_empty() && rng.chance(2, 3) { out.count("planned:drop-a-comment-child"); rng.pick(&comments).clone() } else { rng.pick(&named).clone() };
         let base = t.range().start;
         let text = t.text().to_string();
         let (mut a, mut b) = (c.range().start - base, c.range().end - base);
